@@ -372,6 +372,124 @@ def gen_task(rng, lm, cfg, force_n=None):
             'use_mpi': rng.choice([None, None, True, False]), 'exe': rng.random() < 0.95}
 
 
+# ------------------------------------------------------------------------------
+# JSRUN: the placement comes as resource sets (what the jsrun scheduler hands over)
+#
+def make_jsrun(rp, erf, tpc, gpn):
+    from radical.pilot.agent.launch_method.jsrun import JSRUN
+    o = object.__new__(JSRUN)
+    o.name, o._log, o._prof = 'JSRUN_ERF' if erf else 'JSRUN', rpload.NullLog(), rpload.NullLog()
+    o._in_pytest = False
+    o._rm_info = {'threads_per_core': tpc, 'gpus_per_node': gpn}
+    o._erf, o._command = False, ''
+    o.init_from_info({'env': {}, 'env_sh': 'env/lm_jsrun.sh', 'command': 'jsrun', 'erf': bool(erf)})
+    return o
+
+
+def jsrun_task(rp, t, uid, sbox):
+    slots = [{'node_name': hname(r['node']), 'node_index': r['node'], 'cores': [list(c) for c in r['ranks']],
+              'gpus': [list(r['gpus']) for _ in r['ranks']] if r['gpus'] else [], 'lfs': 0, 'mem': 0} for r in t['rsets']]
+    from radical.pilot import constants as rpc
+    return {'uid': uid, 'slots': slots, 'task_sandbox_path': sbox,
+            'description': {'executable': '/bin/true', 'ranks': t['nranks'], 'gpus_per_rank': 1.0 if t['cuda'] else 0.0,
+                            'gpu_type': rpc.CUDA if t['cuda'] else '', 'threading_type': rpc.OpenMP if t['omp'] else ''}}
+
+
+def parse_jsrun(cmd):
+    w = cmd.split()
+    assert w[0] == 'jsrun' and w[-1] == 'EXEC', cmd
+    smpi = None
+    for x in w:
+        if x.startswith('--smpiargs='): smpi = 'gpu' if 'gpu' in x else 'off'
+    if '--erf_input' in w:
+        lines = []
+        text = read(w[w.index('--erf_input') + 1]).splitlines()
+        assert text[0] == 'cpu_index_using: logical', text[0]
+        for line in text[1:]:
+            m = re.match(r'^rank: ([\d,]+) : \{ host: (\d+); cpu: ((?:\{[\d,]*\},?)+)(?:; gpu: \{([\d,]*)\})? \}$', line)
+            assert m, line
+            lines.append({'ranks': [int(x) for x in m.group(1).split(',')], 'host': int(m.group(2)),
+                          'cpus': [[int(y) for y in x.split(',') if y] for x in re.findall(r'\{([\d,]*)\}', m.group(3))],
+                          'gpus': [int(x) for x in (m.group(4) or '').split(',') if x]})
+        return {'lm': 'jsrun_erf', 'smpi': smpi, 'lines': lines}
+    def num(flag):
+        for x in w:
+            if re.match(r'^-%s\d+$' % flag, x): return int(x[2:])
+        return None
+    b = None
+    if '-b' in w:
+        v = w[w.index('-b') + 1]
+        b = 'rs' if v == 'rs' else int(v.split(':')[1])
+    return {'lm': 'jsrun', 'smpi': smpi, 'n': num('n'), 'a': num('a'), 'c': num('c'), 'g': num('g'), 'r': num('r'), 'b': b}
+
+
+def gen_jsrun_task(rng, cfg):
+    nodes = list(range(2, 8))
+    nrs   = rng.choice([1, 1, 2, 3, 4, 6])
+    a     = rng.choice([1, 1, 2, 2, 3])                 # ranks per resource set (several when ranks share a GPU)
+    cpr   = rng.choice([1, 2, 4])
+    ng    = rng.choice([0, 0, 1, 1, 2])
+    uniform = rng.random() < 0.85
+    rsets, used = [], {}
+    for i in range(nrs):
+        node = rng.choice(nodes) if rng.random() < 0.5 or not rsets else rsets[-1]['node']
+        k = a if uniform else rng.choice([1, 2, 3])
+        base = used.get(node, 0)
+        ranks = [list(range(base + j * cpr, base + (j + 1) * cpr)) for j in range(k)]
+        used[node] = base + k * cpr
+        rsets.append({'node': node, 'ranks': ranks, 'gpus': list(range(ng)) if ng else []})
+    return {'rsets': rsets, 'nranks': sum(len(r['ranks']) for r in rsets), 'cuda': bool(ng) and rng.random() < 0.6,
+            'omp': rng.random() < 0.4}
+
+
+def jsrun_monitor(t, c):
+    bad = []
+    n = t['nranks']
+    if c.get('lm') == 'jsrun_erf':
+        ids = [x for l in c['lines'] for x in l['ranks']]
+        if sorted(ids) != list(range(n)):
+            bad.append(('jsrun-erf:rank-ids-differ-from-the-ranks-of-the-task',
+                        'the resource file names ranks %s, the task has %d ranks' % (ids, n)))
+        want = [(r['node'], r['ranks'], r['gpus'], len(r['ranks'])) for r in t['rsets']]
+        got  = [(l['host'], l['cpus'], l['gpus'], len(l['ranks'])) for l in c['lines']]
+        if got != want:
+            bad.append(('jsrun-erf:resource-sets-differ-from-placement', '%s vs %s' % (got, want)))
+    elif c.get('lm') == 'jsrun':
+        if len(set(len(r['ranks']) for r in t['rsets'])) == 1 and c['n'] * c['a'] != n:
+            bad.append(('jsrun:process-count-differs', '-n%d -a%d for %d ranks' % (c['n'], c['a'], n)))
+    return bad
+
+
+def jsrun_part(ctx, rp, sbox, ops, impl, dist):
+    rng = ctx.rng
+    for i in range(ctx.n(80, 2500)):
+        cfg = {'erf': i % 2 == 0, 'tpc': rng.choice([1, 1, 2, 4]), 'gpn': rng.choice([4, 6])}
+        tasks = [gen_jsrun_task(rng, cfg) for _ in range(rng.randint(2, 4))]
+        tasks.append(tasks[0])                      # the first task again: same file, same command
+        o = make_jsrun(rp, cfg['erf'], cfg['tpc'], cfg['gpn'])
+        parsed = []
+        for k, t in enumerate(tasks):
+            task = jsrun_task(rp, t, 'task.%06d' % (0 if k == len(tasks) - 1 else k), sbox)
+            try:
+                c = parse_jsrun(o.get_launch_cmds(task, 'EXEC'))
+            except AssertionError as e:
+                if 'rank:' in str(e) or 'jsrun' in str(e) or 'cpu_index' in str(e): raise
+                c = {'err': 'Error'}
+            except Exception:
+                c = {'err': 'Error'}
+            parsed.append(c)
+            ops.append({'op': 'jsrun', 'erf': cfg['erf'], 'tpc': cfg['tpc'], 'gpn': cfg['gpn'], 'rsets': t['rsets'],
+                        'nranks': t['nranks'], 'cuda': t['cuda'], 'omp': t['omp']})
+            impl.append(c)
+            dist['JSRUN'] = dist.get('JSRUN', 0) + 1
+            ctx.case(ops[-1], nontrivial=len(t['rsets']) > 1 and any(len(r['ranks']) > 1 for r in t['rsets']))
+            for sig, what in jsrun_monitor(t, c):
+                ctx.fail(sig, what, {'lm': 'JSRUN', 'cfg': cfg, 'tasks': [t]}, observed=c)
+        if parsed[0] != parsed[-1]:
+            ctx.fail('jsrun:command-depends-on-earlier-tasks', '%s vs %s' % (parsed[0], parsed[-1]),
+                     {'lm': 'JSRUN', 'cfg': cfg, 'tasks': tasks})
+
+
 def gen_cfg(rng, lm):
     cfg = {'cpn': rng.choice([4, 8, 16]), 'node_idx': list(range(2, rng.choice([6, 10])))}
     if lm == 'FORK':   cfg.update({'localhost': 0, 'self': rng.choice([1, 10, 11, 12, 100, 5])})
@@ -432,6 +550,8 @@ def run(ctx):
                 if r['can']:
                     for sig, what in monitor(lm, cfg, t, r['cmd']):
                         ctx.fail(sig, what, {'lm': lm, 'cfg': cfg, 'tasks': [t]}, observed=r['cmd'])
+        jops, jimpl = [], []
+        jsrun_part(ctx, rp, sbox, jops, jimpl, dist)
         # find_launcher: first launcher of the configured order that accepts the task
         fops, fimpl = [], []
         from radical.pilot.agent.resource_manager.base import ResourceManager
@@ -464,6 +584,7 @@ def run(ctx):
     ctx.extra['distribution'] = dist
     ctx.sample({'op': ops[1], 'real': impl[1]}, limit=1)
     common.compare(ctx, 'launch', ops, impl, what='real launch methods: can_launch and parsed get_launch_cmds (+ host/rank/node files) per task')
+    common.compare(ctx, 'launch', jops, jimpl, what='real JSRUN (resource set flags and explicit resource file) per task')
     common.compare(ctx, 'launch', fops, fimpl, what='ResourceManager.find_launcher over real launchers')
     ctx.rule = ('per launch method and flavour (MPT/dplace/ccmrun/Spectrum; rank file/host file/PALS; Slurm versions, traverse; '
                 'tasks_per_node option): sequences of 3-6 tasks on one launcher instance, 0-6 (and 43/50) ranks, ranks grouped '
@@ -472,7 +593,7 @@ def run(ctx):
     ctx.assume += ['what mpirun/mpiexec/srun/prun/ibrun/aprun/ssh do with a command is the interpretation written in '
                    'Model/Launch.lean `procsOn`/`procCount` (trusted); the monitor re-implements it independently',
                    'PALS placements that are not filled host by host, and IBRUN placements that are not consecutive task slots, are tied to the model but not judged',
-                   'JSRUN, FLUX and DRAGON are not covered']
+                   'JSRUN: the node placement of the resource-set flags is left to jsrun (count only); FLUX and DRAGON are not covered']
     ctx.trusted += ['harness/props/c09.py: command parser, RMInfo stub, lm_info records']
 
 
@@ -483,6 +604,17 @@ def replay(ctx, data):
         return False
     sbox = tempfile.mkdtemp(prefix='c09_')
     try:
+        if i['lm'] == 'JSRUN':
+            o = make_jsrun(rp, i['cfg']['erf'], i['cfg']['tpc'], i['cfg']['gpn'])
+            bad, parsed = [], []
+            for k, t in enumerate(i['tasks']):
+                c = parse_jsrun(o.get_launch_cmds(jsrun_task(rp, t, 'task.%06d' % (0 if k == len(i['tasks']) - 1 else k), sbox), 'EXEC'))
+                print(c); parsed.append(c)
+                bad += jsrun_monitor(t, c)
+            if len(parsed) > 1 and i['tasks'][0] == i['tasks'][-1] and parsed[0] != parsed[-1]:
+                bad.append(('command-depends-on-earlier-tasks', ''))
+            print(bad)
+            return not bad
         res, raw = run_real(rp, i['lm'], i['cfg'], i['tasks'], sbox)
         bad = []
         for t, r in zip(i['tasks'], res):
